@@ -239,6 +239,15 @@ func RunWith(t *testing.T, c Case, st *Stores) *Result {
 		return res
 	}
 	res.B = b
+	// outside the generated domain: a traversal that visits exponentially many paths (see dagen.ErrTooLarge)
+	for _, r := range c.Reqs {
+		b2 := *b
+		b2.Root = RootOf(b, r.Root)
+		if full := dagen.RefFull(&b2, dagen.Canonical(c.Sel.Node())); full.Err == dagen.ErrTooLarge {
+			res.Skip = true
+			return res
+		}
+	}
 	split := append(dagen.Split(nil), c.Split...)
 	for len(split) < len(b.Order) {
 		split = append(split, 2)
